@@ -24,7 +24,8 @@ RULE = (
     "source}; the same product (without checkout) for a .dir-suffixed id whose intact controls are left "
     "unprotected (0o644) so that they are really hashed; the re-checkout product: checkout of the object (file target without/with a state, or a directory "
     "target listing it) while intact, then the change, then the same checkout again on the same store directory - "
-    "with the same odb object and with a re-created one; the fault product: removal of the objects of one shard directory (the target's or the "
+    "with the same odb object and with a re-created one; the read-only product: the same queries through a handle opened with read_only=True on the same "
+    "directory (add through it must be refused); the fault product: removal of the objects of one shard directory (the target's or the "
     "bystander's) raises PermissionError, x tampers/intact x state entry x class x {check, oids_exist, checkout file "
     "without/with state, checkout dir, add(verify)}; plus seeded random histories (6-14 steps, one in five with such a fault) over add/check/oids_exist/checkout/tamper (also "
     "keeping 0o444, other modes, mtime-restoring)/plant under a wrong name/delete/hash/foreign state row/"
@@ -94,6 +95,7 @@ class Real:
         self.state = self._mkstate()
         self.fault = case.get("fault")  # 2-character shard whose objects cannot be removed, or None
         self.fs = self._mkfs()
+        self.ro = False  # the current handle was opened with read_only=True
         self.odb = self.mk_odb()
         os.makedirs(self.store, exist_ok=True)
         self.known = set()  # oids ever touched
@@ -123,7 +125,8 @@ class Real:
         from dvc_data.hashfile.db.local import LocalHashFileDB
 
         k = LocalHashFileDB if self.cls == "local" else HashFileDB
-        return k(self.fs, os.path.abspath(self.store), state=self.state, verify=self.case.get("verify", False))
+        return k(self.fs, os.path.abspath(self.store), state=self.state, verify=self.case.get("verify", False),
+                 read_only=self.ro)
 
     def faulty(self, oid):
         return bool(self.fault) and oid[:2] == self.fault
@@ -220,7 +223,8 @@ def tok_term(st):
 
 def exc_code(exc):
     n = type(exc).__name__
-    return {"FileNotFoundError": 2, "ObjectFormatError": 3, "CheckoutError": 5, "PermissionError": 98}.get(n, 99)
+    return {"ObjectDBPermissionError": 1, "FileNotFoundError": 2, "ObjectFormatError": 3, "CheckoutError": 5,
+            "PermissionError": 98}.get(n, 99)
 
 
 def tamper_bytes(pattern, old, other):
@@ -306,6 +310,21 @@ def run_case(ctx, case):
                         R.note_wall(o)
                     its.append("(%s, %s, %s)" % (cbytes(o), cbytes(POOL[sk]), tok_term(st)))
                 ops_t.append(ctor("OAdd", copt(verify, cbool), clist(its)))
+                if R.ro:
+                    # add through a read_only=True handle: refused (after the pre-verification)
+                    ops_t[-1] = ctor("OAddRO", copt(verify, cbool), clist(its))
+                    tags.add("ro:add")
+                    if res == ("exc", "ObjectDBPermissionError"):
+                        outs.append(vL([vN(1), vN(1)]))
+                    elif res[0] == "abort":
+                        outs.append(ABORT)
+                    else:
+                        outs.append(vL([vN(99)]))
+                        fail("C07:readonly-add-accepted", f"add through a read-only handle returned {res}")
+                    if any(q["exists"] and not pre[o]["exists"] for o, q in post.items()):
+                        fail("C07:readonly-add-modified", "add through a read-only handle created an object")
+                    judge_unharmed(pre, post, "add")
+                    continue
                 if res[0] == "ok":
                     outs.append(vL([vN(2), vN(res[1]), vL([vB(o) for o, _ in errs])]))
                     if any(c != 3 for _, c in errs):
@@ -498,6 +517,12 @@ def run_case(ctx, case):
                         tags.add("checkoutdir:intact")
                         if got.get(nm) != p["bytes"] and not aborted:
                             fail("C07:intact-not-materialised", f"directory checkout did not materialise intact object {o} at {nm}")
+            elif kind == "handle":
+                # switch to a handle opened with read_only=True / False on the same directory: no model
+                # step (check / oids_exist / checkout ignore the option; add becomes OAddRO)
+                R.ro = op[1] == "ro"
+                R.odb = R.mk_odb()
+                tags.add("env:handle:" + op[1])
             elif kind == "reopen":
                 # a new odb object on the same store directory (same state): no model step
                 R.odb = R.mk_odb()
@@ -618,7 +643,7 @@ def product_cases(full=True):
                ("none", None), ("touch", None), ("chmod", 0o644)]
     for cls in ("local", "base"):
         for pattern, mode in changes:
-            for entry in ("noop", "wiped", "warm", "stale"):
+            for entry in (("noop", "wiped", "warm", "stale") if full else ("noop", "warm", "stale")):
                 for query in ("check", "exist", "checkout", "checkoutst", "addverify"):
                     ops = [["add", None, [[T, 0], [B, 1]]]]
                     if pattern != "none":
@@ -665,6 +690,34 @@ def product_cases(full=True):
                                 ["exist", [TD, [3, ".dir"], [4, ".dir"]]]]
                     out.append({"cls": cls, "state": entry != "noop", "verify": False, "ops": ops,
                                 "tag": f"dir:{pattern}/{entry}/{query}"})
+    # queries through a handle opened with read_only=True (objects were added through a writable one)
+    rchanges = [("append", 0o644), ("replace", 0o644), ("rewrite", 0o644), ("none", None), ("chmod", 0o644),
+                ("truncate", 0o644), ("empty", 0o644), ("touch", None)]
+    for cls in ("local", "base"):
+        for pattern, mode in (rchanges if full else rchanges[:5]):
+            for entry in (("noop", "wiped", "warm", "stale") if full else ("noop", "stale")):
+                for query in ("check", "exist", "checkout", "checkoutdir", "addro"):
+                    ops = [["add", None, [[T, 0], [B, 1]]]]
+                    if pattern != "none":
+                        ops.append(["tamper", T, pattern, mode, 3])
+                    if entry == "wiped":
+                        ops.append(["dropstate"])
+                    elif entry == "warm":
+                        ops.append(["hash", T])
+                    ops.append(["handle", "ro"])
+                    if query == "check":
+                        ops += [["check", T], ["check", B], ["check", T]]
+                    elif query == "exist":
+                        ops += [["exist", [B, T, [-1, ""]]], ["exist", [T]]]
+                    elif query == "checkout":
+                        ops += [["checkout", T], ["checkout", B, True]]
+                    elif query == "checkoutdir":
+                        ops += [["checkoutdir", [["t", T], ["b", B]]], ["checkout", T]]
+                    else:
+                        ops += [["add", True, [[T, 0], [O, 4]]], ["add", False, [[O, 3]]], ["handle", "rw"],
+                                ["check", T], ["add", True, [[T, 0], [O, 4]]]]
+                    out.append({"cls": cls, "state": entry != "noop", "verify": False, "ops": ops,
+                                "tag": f"ro:{pattern}/{entry}/{query}"})
     # fault stream: removing the objects of one shard directory fails with PermissionError; a query
     # on a tampered object of that shard must still not serve it (any error is an acceptable refusal)
     DIRQ = [["t", T], ["b", B]]
@@ -699,7 +752,7 @@ def product_cases(full=True):
     DIR = [["t", T], ["b", B]]
     for cls in ("local", "base"):
         for pattern, mode in changes:
-            for entry in (("noop", "wiped", "warm", "stale") if full else ("noop", "warm", "stale")):
+            for entry in (("noop", "wiped", "warm", "stale") if full else ("noop", "stale")):
                 for target in ("file", "filest", "dir"):
                     for reopen in (False, True):
                         if not full and target == "filest" and not reopen:
@@ -753,8 +806,10 @@ def random_case(rng):
         elif r < 0.50:
             ks = rng.sample(range(5), rng.randint(1, 3))
             ops.append(["checkoutdir", [[f"f{k}", [k, ""]] for k in ks]])
-        elif r < 0.52:
+        elif r < 0.51:
             ops.append(["reopen"])
+        elif r < 0.52:
+            ops.append(["handle", rng.choice(["ro", "ro", "rw"])])
         elif r < 0.74:
             pat = rng.choice(["append", "truncate", "rewrite", "replace", "empty", "touch", "chmod", "rewrite", "restore"])
             mode = rng.choice([0o644, 0o644, 0o644, None, 0o444, 0o600, 0o664, 0o400])
@@ -783,6 +838,8 @@ def random_case(rng):
                   rng.choice([0o644, 0o644, 0o600, 0o444]), rng.randrange(len(POOL))]]
         if rng.random() < 0.4:
             motif.append(["reopen"])
+        elif rng.random() < 0.3:
+            motif.append(["handle", "ro"])
         if rng.random() < 0.3:
             motif.append(rng.choice([["hash", tgt], ["dropstate"]]))
         motif.append(look())
@@ -833,7 +890,7 @@ def run(ctx):
     need = {"check:tampered", "check:intact", "exist:tampered", "exist:intact", "checkout:tampered",
             "checkout:intact", "checkoutdir:tampered", "checkoutdir:intact", "env:reopen", "add:verify",
             "fault:check-aborted", "fault:exist-aborted", "fault:checkout-aborted", "fault:checkoutdir-aborted",
-            "fault:add-aborted"}
+            "fault:add-aborted", "env:handle:ro", "ro:add"}
     ctx.obligation("generator:coverage", need <= seen_tags, "missing: " + ", ".join(sorted(need - seen_tags)))
     if not need <= seen_tags:
         ctx.broken("correspondence", "generator:coverage", "the generators no longer reach " + ", ".join(sorted(need - seen_tags)))
